@@ -40,7 +40,7 @@ fn time_budget(tier: Tier) -> Duration {
 
 /// hard per-case limit inside a worker: the watchdog thread reports the case and kills the worker
 fn hard_case_secs() -> u64 {
-    std::env::var("VERIF_CASE_HARD_S").ok().and_then(|s| s.parse().ok()).unwrap_or(40)
+    std::env::var("VERIF_CASE_HARD_S").ok().and_then(|s| s.parse().ok()).unwrap_or(90)
 }
 
 struct Acc {
@@ -463,9 +463,23 @@ pub fn run(id: &str, tier: Tier) -> i32 {
 
     // confirm crashes / hangs in solo processes
     let mut slow_notes = 0;
-    for c in &crashes {
-        let timeout = Duration::from_secs(if c.hang { 150 } else { 90 });
-        let (vs, died) = run_solo(&exe, id, tier, seed, c.idx, &work, timeout);
+    // (up to 8 confirmations at a time: each is one single-threaded process)
+    let mut confirmed: Vec<(Vec<Violation>, Option<String>)> = vec![];
+    for chunk in crashes.chunks(8) {
+        let results: Vec<(Vec<Violation>, Option<String>)> = std::thread::scope(|sc| {
+            let handles: Vec<_> = chunk
+                .iter()
+                .map(|c| {
+                    let (exe, work) = (&exe, &work);
+                    let timeout = Duration::from_secs(if c.hang { 240 } else { 90 });
+                    sc.spawn(move || run_solo(exe, id, tier, seed, c.idx, work, timeout))
+                })
+                .collect();
+            handles.into_iter().map(|h| h.join().unwrap_or((vec![], Some("confirmation thread failed".into())))).collect()
+        });
+        confirmed.extend(results);
+    }
+    for (c, (vs, died)) in crashes.iter().zip(confirmed) {
         violations.extend(vs);
         match died {
             Some(st) => {
@@ -484,6 +498,7 @@ pub fn run(id: &str, tier: Tier) -> i32 {
             None => {
                 if c.hang {
                     slow_notes += 1;
+                    println!("[{id}] note: case {} exceeded the per-case wall-clock limit in a worker but finished in a solo process (slow, not a hang)", c.idx);
                 } else {
                     infra_errors.push(format!("worker death on case {} ({}) did not reproduce solo", c.idx, c.status));
                 }
@@ -630,7 +645,7 @@ pub fn replay(path: &str) -> i32 {
     let class = j["class"].as_str().unwrap_or("");
     let exe = std::env::current_exe().expect("exe");
     let work = prepare_work(&format!("replay-{id}"));
-    let (vs, died) = run_solo(&exe, id, tier, seed, idx, &work, Duration::from_secs(150));
+    let (vs, died) = run_solo(&exe, id, tier, seed, idx, &work, Duration::from_secs(240));
     let _ = std::fs::remove_dir_all(&work);
     let mut hit = false;
     for v in &vs {
